@@ -55,7 +55,7 @@ def main():
         with open(os.path.join(dst0, "patch.diff")) as f1, open(patch) as f2:
             same = f1.read() == f2.read()
         if same and pm.get("repo_tests_pass"):
-            prior = {k: pm[k] for k in ("repo_tests_run", "repo_tests_tail", "repo_tests_pass", "note") if k in pm}
+            prior = {k: pm[k] for k in ("repo_tests_run", "repo_tests_tail", "repo_tests_pass", "note", "obsolete") if k in pm}
 
     sh(f"git -C /repo worktree remove --force {WT}")
     rc, out = sh(f"git -C /repo worktree add -q --detach {WT} HEAD")
